@@ -59,7 +59,10 @@ fn main() {
                 let tape: Vec<u32> = (0..len).map(|_| { x = verif_core::tape::splitmix64(x); (x >> 32) as u32 }).collect();
                 let mut t = verif_core::tape::Tape::new(&tape);
                 let case = prop.generate(&mut t, &ctx);
-                if let Some(src) = case["src"].as_str() {
+                if let Some(src) = case["decorated"].as_str() {
+                    let i = src.find("function __t(").map(|i| src[i..].find('\n').map(|j| i + j + 1).unwrap_or(0)).unwrap_or(0);
+                    println!("{}\n// ---- kinds: {}\n", &src[i..], case["kinds"]);
+                } else if let Some(src) = case["src"].as_str() {
                     println!("{}\n// ---- tags: {}\n", src, case["tags"]);
                 } else {
                     println!("{}", serde_json::to_string_pretty(&case).unwrap_or_default());
